@@ -284,6 +284,33 @@ static void string_key_case(Rng &r, long long idx) {
 	note_distinct(mix(0x57, (uint64_t)idx));
 }
 
+// ---- keys with a lifetime of their own and values without one (hash_map<Name, unsigned>): every stored key is destroyed exactly once,
+// by remove() or by the map's destructor
+struct HElem { unsigned operator()(const Elem &e) const { return (unsigned)e.get() * 2654435761u; } };
+static void tracked_key_case(Rng &r, long long idx) {
+	Ctx c; c.type = "hash_map<Elem,int>";
+	AllocState as; as.owner = "hash_map"; g_elems.owner = "hash_map";
+	{
+		frg::hash_map<Elem, int, HElem, TrackedAlloc> m{HElem{}, TrackedAlloc{&as}};
+		std::map<int, int> ref;
+		unsigned nops = 20 + r.below(120), uni = 3 + r.below(40);
+		for(unsigned i = 0; i < nops && !c.bad; i++) {
+			int k = (int)r.below(uni);
+			switch(r.below(5)) {
+			case 0: case 1: if(!ref.count(k)) { c.op("ins:" + std::to_string(k)); if(r.chance(1, 2)) { Elem key(k); m.insert(key, (int)i); } else m.insert(Elem(k), (int)i); ref[k] = (int)i; } break;
+			case 2: { c.op("rem:" + std::to_string(k)); auto got = m.remove(Elem(k)); if((bool)got != (ref.count(k) != 0)) c.fail("remove-flag", "remove() of a tracked key disagrees with the reference"); else if(got && *got != ref[k]) c.fail("remove-value", "remove() of a tracked key returned another value"); ref.erase(k); break; }
+			default: { c.op("get:" + std::to_string(k)); int *g = m.get(Elem(k)); if((g != nullptr) != (ref.count(k) != 0)) c.fail(g ? "get-absent" : "get-present", "get() of a tracked key disagrees with the reference"); else if(g && *g != ref[k]) c.fail("get-value", "get() of a tracked key returned another value"); break; }
+			}
+			if(m.size() != ref.size()) c.fail("size", strf("size()=%zu expected %zu", (size_t)m.size(), ref.size()));
+			if(g_elems.alive.size() != ref.size()) { c.fail("live-keys", strf("%zu key objects are alive while the map holds %zu entries (a removed entry's key was not destroyed, or a stored one was)", g_elems.alive.size(), ref.size())); if(g_lifetime_armed) violation("C16:lifetime:hash_map:live-keys", strf("%zu key objects alive for %zu entries after [%s ]", g_elems.alive.size(), ref.size(), c.trace.c_str())); }
+		}
+		if(idx % 2) { while(m.size() && !c.bad) { int k = ref.begin()->first; m.remove(Elem(k)); ref.erase(k); } }
+	}
+	expect_no_elems("after destroying a map with tracked keys");
+	expect_no_blocks(as, "after destroying a map with tracked keys");
+	count("tracked_key_histories");
+}
+
 int main(int argc, char **argv) {
 	parse_args(argc, argv, "c14_hashmap");
 	if(opt.replay_arg.find("prop=C16") != std::string::npos) g_prop = "C16";
@@ -303,7 +330,7 @@ int main(int argc, char **argv) {
 	if(want_mode("string-keys")) {
 		Rng sr(derive_seed("string-keys"));
 		uint64_t n = scaled(300, 20000);
-		for(uint64_t i = 0; i < n; i++) { uint64_t cs = sr.next(); if(!want_case(i)) continue; begin_case("string-keys", i); Rng r(cs); guarded(g_prop.c_str(), [&] { string_key_case(r, (long long)i); }); count("string_key_histories"); if(!rec.violations.empty()) break; }
+		for(uint64_t i = 0; i < n; i++) { uint64_t cs = sr.next(); if(!want_case(i)) continue; begin_case("string-keys", i); Rng r(cs); guarded(g_prop.c_str(), [&] { string_key_case(r, (long long)i); tracked_key_case(r, (long long)i); }); count("string_key_histories"); if(!rec.violations.empty()) break; }
 		sample("string-keys: hash_map<std::string, Rec{name,payload}> vs std::map; inserts pass rec.name as the key and std::move(rec) (or rec) as the value; removes pass the key stored inside the map");
 	}
 	if(want_mode("init-list")) { init_list_case<HIdentity>(); init_list_case<HConst>(); }
